@@ -35,7 +35,7 @@ SPEC = {
                      "C02_revoke_advances_tail", "C02_tail_height_monotone",
                      "C02_restore_keeps_tail"],
         "env": {"VERIF_CRASH": "1", "VERIF_CUT": "1"},
-        "predicates": ["reload_consistent", "call_atomicity", "disk_tables", "crashin_atomic", "release_rule", "live_release_rule",
+        "predicates": ["reload_consistent", "params_survive_reload", "call_atomicity", "disk_tables", "crashin_atomic", "release_rule", "live_release_rule",
                        "side_harmless", "no_errors", "conservation", "agreement", "heights_sane"],
         "view_stage": True,
         "with_reload": True, "with_cut": True,
@@ -48,7 +48,7 @@ SPEC = {
         "theorems": ["C02_revoke_advances_tail", "C02_tail_height_monotone",
                      "C02_restore_keeps_tail", "C02_restore_keeps_signed"],
         "env": {"VERIF_CRASH": "1", "VERIF_CUT": "1"},
-        "predicates": ["release_rule", "live_release_rule", "reload_consistent", "crashin_atomic", "side_harmless",
+        "predicates": ["release_rule", "live_release_rule", "reload_consistent", "params_survive_reload", "crashin_atomic", "side_harmless",
                        "no_errors"],
         "with_reload": True, "with_cut": True,
     },
@@ -60,7 +60,7 @@ SPEC = {
                      "C03_resync_xinv", "C03_resync_inv", "C03_agreement_after_resync",
                      "C03_cut_refusal_is_money", "C03_free_rev_refuted"],
         "env": {"VERIF_CRASH": "0", "VERIF_CUT": "1"},
-        "predicates": ["no_errors", "agreement", "mirror", "conservation",
+        "predicates": ["no_errors", "params_survive_reload", "agreement", "mirror", "conservation",
                        "release_rule", "live_release_rule", "crashin_atomic", "drained", "logs_ordered"],
         "with_reload": False, "with_cut": True,
     },
